@@ -128,6 +128,9 @@ func init() {
 		in.mapOrder = in.conf.mapOrder
 		return in.mapOrder
 	}
+	verifIntrinsics["verifUnicodeIsPrint"] = func(in *Interp, fr *frame, a []Value) Value {
+		return symIntrinsics["unicode.IsPrint"](in, fr, a)
+	}
 	verifIntrinsics["verifSteps"] = func(in *Interp, _ *frame, a []Value) Value { return int64(in.steps) }
 	verifIntrinsics["verifSymbolic"] = func(in *Interp, _ *frame, a []Value) Value { return true }
 
@@ -289,6 +292,17 @@ func init() {
 		}
 		return nil
 	}
+	intrinsics["internal/abi.NoEscape"] = func(in *Interp, _ *frame, a []Value) Value { return a[0] }
+	intrinsics["(*strings.Builder).copyCheck"] = nop
+	intrinsics["(*strings.Builder).String"] = func(in *Interp, _ *frame, a []Value) Value {
+		p := a[0].(*Value)
+		if p == nil {
+			in.rtPanic("invalid memory address or nil pointer dereference")
+		}
+		st := (*p).(Struct)
+		buf, _ := st[len(st)-1].([]Value)
+		return mkStr(buf)
+	}
 	intrinsics["reflect.TypeOf"] = func(in *Interp, _ *frame, a []Value) Value { return Iface{} }
 	intrinsics["runtime/debug.Stack"] = func(in *Interp, _ *frame, a []Value) Value { return []Value(nil) }
 	intrinsics["math/rand.Intn"] = func(in *Interp, _ *frame, a []Value) Value {
@@ -319,6 +333,7 @@ func init() {
 		"unicode.IsSpace":  {[]*unicode.RangeTable{unicode.White_Space}, unicode.IsSpace},
 		"unicode.IsUpper":  {[]*unicode.RangeTable{unicode.Upper}, unicode.IsUpper},
 		"unicode.IsLower":  {[]*unicode.RangeTable{unicode.Lower}, unicode.IsLower},
+		"unicode.IsPrint":  {printTables, unicode.IsPrint},
 	} {
 		name, tab := name, tab
 		symIntrinsics[name] = func(in *Interp, _ *frame, a []Value) Value {
@@ -333,12 +348,54 @@ func init() {
 	}
 }
 
+var printTables = []*unicode.RangeTable{unicode.L, unicode.M, unicode.N, unicode.P, unicode.S, spaceOnly}
+
+var spaceOnly = &unicode.RangeTable{R16: []unicode.Range16{{Lo: ' ', Hi: ' ', Stride: 1}}}
+
 type rng struct{ lo, hi, stride uint32 }
+
+// rangesContain is the concrete meaning of inRangeTables (used by the start-up self check).
+func rangesContain(tabs []*unicode.RangeTable, r uint32) bool {
+	for _, t := range tabs {
+		for _, g := range tableRanges[t] {
+			if r >= g.lo && r <= g.hi && (g.stride <= 1 || (r-g.lo)%g.stride == 0) {
+				return true
+			}
+		}
+	}
+	return false
+}
+
+// selfCheckUnicode compares the interval encodings with the host's real predicates on every
+// code point; a mismatch is an engine defect.
+func selfCheckUnicode() error {
+	checks := []struct {
+		name string
+		tabs []*unicode.RangeTable
+		pred func(rune) bool
+	}{
+		{"IsLetter", []*unicode.RangeTable{unicode.Letter}, unicode.IsLetter},
+		{"IsDigit", []*unicode.RangeTable{unicode.Digit}, unicode.IsDigit},
+		{"IsSpace", []*unicode.RangeTable{unicode.White_Space}, unicode.IsSpace},
+		{"IsUpper", []*unicode.RangeTable{unicode.Upper}, unicode.IsUpper},
+		{"IsLower", []*unicode.RangeTable{unicode.Lower}, unicode.IsLower},
+		{"IsPrint", printTables, unicode.IsPrint},
+	}
+	for _, c := range checks {
+		for r := uint32(0); r <= 0x110000; r++ {
+			if rangesContain(c.tabs, r) != c.pred(rune(r)) {
+				return fmt.Errorf("unicode.%s interval encoding disagrees with the host at U+%04X", c.name, r)
+			}
+		}
+	}
+	return nil
+}
 
 var tableRanges = map[*unicode.RangeTable][]rng{}
 
 func initUnicodeTables() {
-	for _, t := range []*unicode.RangeTable{unicode.Letter, unicode.Digit, unicode.White_Space, unicode.Upper, unicode.Lower} {
+	for _, t := range []*unicode.RangeTable{unicode.Letter, unicode.Digit, unicode.White_Space, unicode.Upper, unicode.Lower,
+		unicode.L, unicode.M, unicode.N, unicode.P, unicode.S, spaceOnly} {
 		var rs []rng
 		add := func(lo, hi, stride uint32) {
 			if stride == 1 && len(rs) > 0 && rs[len(rs)-1].stride == 1 && rs[len(rs)-1].hi+1 == lo {
